@@ -126,8 +126,13 @@ Expect(r) == CASE r.k = "out" -> [k |-> "out", pieces |-> r.pieces, log |-> r.lo
 RECURSIVE ShapeOf(_)
 ShapeOf(i) == IF i > Len(fs) THEN "" ELSE fs[i].k \o "/" \o fs[i].m \o (IF i < Len(fs) THEN ">" ELSE "") \o ShapeOf(i + 1)
 
-EmitCase == res.k = "none" \/
+EmitOnce ==
             PrintT("CASE " \o ToJson([gen |-> "GenScopes", src |-> Unparse(Prog), data |-> Data, wrapped |-> <<"t">>,
                                        parts |-> [nm \in DOMAIN Parts |-> Unparse(Parts[nm])],
                                        shape |-> ShapeOf(1), expect |-> Expect(res)]))
+EmitTwice ==
+            PrintT("CASE " \o ToJson([gen |-> "GenScopes", src |-> Unparse(Prog \o Prog), data |-> Data, wrapped |-> <<"t">>,
+                                       parts |-> [nm \in DOMAIN Parts |-> Unparse(Parts[nm])],
+                                       shape |-> ShapeOf(1) \o ":twice", expect |-> Expect(Run(Prog \o Prog, WithHelpers(Data), Parts, ""))]))
+EmitCase == res.k = "none" \/ (EmitOnce /\ EmitTwice)
 =============================================================================
